@@ -96,10 +96,14 @@ _start:
     movk x3, #:abs_g0_nc:absval
     movz x4, #:abs_g0_s:negval
     ret
-    .balign 8
-lit: .quad 0x1122334455667788
+    .section .text.callee,"ax",%progbits
+    .globl callee
+    .type callee, %function
 callee:
     ret
+    .balign 8
+    .globl lit
+lit: .quad 0x1122334455667788
     .data
     .balign 4096
     .skip 0x128
@@ -114,6 +118,11 @@ target: .quad 7
         obj = asm.write_asm(d, "a", src, arch="aarch64")
         e = elf.Elf(obj)
         text = e.section(".text")
+        rela = e.section(".rela.text")
+        relocated = {r["offset"] for r in e.relas(rela)} if rela else set()
+        missing = [idx for idx, _ in sites if 4 * idx not in relocated]
+        if missing:
+            raise ToolError(f"e2e generator: instructions {missing} carry no relocation in the assembled object")
         data = bytearray(obj.read_bytes())
         off = text["offset"]
         rng = random.Random(ctx.seed)
